@@ -1,7 +1,7 @@
 (* Line-protocol driver for the extracted tautology-prover model (C09).
    Same request grammar and answer format as harness/impl/taut_runner.py.
    Trusted: int<->N/Z conversion, parsing and printing.
-   usage: mlref_taut [--pinned] [--fuel n] *)
+   usage: mlref_taut [--pinned] [--fuel n] [--timeout seconds]   (links the unix library for alarm()) *)
 open Taut_model
 
 let rec pos_of_int i = if i = 1 then XH else if i land 1 = 0 then XO (pos_of_int (i/2)) else XI (pos_of_int (i/2))
@@ -137,13 +137,21 @@ let handle line =
             | _ -> raise Bad)
   | _ -> "BADCMD"
 
+exception Timeout
+let tmo = ref 10
+
 let () =
   Array.iteri (fun i a ->
     if a = "--pinned" then no_shadow := false;
+    if a = "--timeout" then tmo := int_of_string Sys.argv.(i+1);
     if a = "--fuel" then fuel := nat_of_int (int_of_string Sys.argv.(i+1))) Sys.argv;
+  Sys.set_signal Sys.sigalrm (Sys.Signal_handle (fun _ -> raise Timeout));
   (try while true do
     let line = input_line stdin in
-    if line = "" then print_endline "" else
-    let out = (try handle line with Out s -> s | Bad -> "BAD" | Failure _ -> "BAD" | Invalid_argument _ -> "BAD" | Stack_overflow -> "STACK") in
-    print_endline out
+    if line = "" then print_endline "" else begin
+    ignore (Unix.alarm !tmo);
+    let out = (try handle line with Out s -> s | Bad -> "BAD" | Failure _ -> "BAD" | Invalid_argument _ -> "BAD"
+                                  | Stack_overflow -> "STACK" | Timeout -> "TIMEOUT") in
+    ignore (Unix.alarm 0);
+    print_endline out end
   done with End_of_file -> ())
